@@ -1057,6 +1057,57 @@ def fromV3FormPropO {V : Type} (bin : List String) (objReq : List String) (name 
                      sc := conv fromV3FormTable h.sc },
            items := (kidItems kids).bind (fromV3SO bin), schema := none }
 
+/-- how fromV3RequestBodies updates its slice results, statement by statement in source order (regenerated from the
+    code as `Gen.requestBodiesUpdates`): the reference branch appends the reference, the media-type loop *replaces*
+    `formParameters` by FromV3RequestBodyFormData of the media type and appends one body parameter -/
+def requestBodiesUpdates : List (String × String) :=
+  [("bodyOrRefParameters", "append"), ("formParameters", "replace:FromV3RequestBodyFormData"),
+   ("bodyOrRefParameters", "append")]
+
+/-- the statements that update a result -/
+def updatesOf (tbl : List (String × String)) (result : String) : List String :=
+  (tbl.filter (fun r => r.1 == result)).map (·.2)
+
+/-- a slice result after the media-type loop, from what the passes computed for it: replaced by every pass (the last
+    pass wins) or appended to (every pass contributes) -/
+def loopResult {α : Type} (kinds : List String) (passes : List (List α)) : List α :=
+  if kinds == ["replace:FromV3RequestBodyFormData"] then passes.foldl (fun _ r => r) []
+  else passes.foldl (fun acc r => acc ++ r) []
+
+/-- fromV3RequestBodies ranges over the media types of the request body and *replaces* `formParameters` by
+    FromV3RequestBodyFormData of every form media type: with both form media types (one form schema object under
+    both) the kept result is the one of the second pass -/
+def formTwice (mimes : List String) : Bool := decide ((mimes.filter isFormMime).length ≥ 2)
+
+/-- FromV3RequestBodyFormData, one inline property, as kept by fromV3RequestBodies: on a second pass the items have
+    been visited by FromV3SchemaRef before, which cleared `nullable` on them in place (F-C17-16) -/
+def fromV3FormPropT {V : Type} (twice : Bool) (bin : List String) (objReq : List String) (name : String) (s : Sch V) : PRef2 V :=
+  match s with
+  | .ref k n => .ref (if k = RK.def3 then RK.par2 else k) n
+  | .node h kids =>
+    .val { name := name, loc := "formData", required := h.req.contains name || objReq.contains name,
+           cons := { ty := if h.fmt = some "binary" then some "file" else h.ty,
+                     fmt := if h.fmt = some "binary" then none else h.fmt,
+                     sc := conv fromV3FormTable h.sc },
+           items := (kidItems kids).bind (fun it => fromV3SO bin (if twice then dropNullable it else it)), schema := none }
+
+/-- the form fields FromV3RequestBodyFormData reads from the form schema: one per property, each once -/
+def fromV3FormFields {V : Type} (twice : Bool) (bin : List String) (objReq : List String) (kids : List (Slot × Sch V)) : List (PRef2 V) :=
+  kids.filterMap (fun (sl, s) => match sl with
+    | .prop name => some (fromV3FormPropT twice bin objReq name s) | _ => none)
+
+/-- what one FromV3RequestBodyFormData pass leaves behind in a form field: FromV3SchemaRef has visited the items -/
+def dropItemsNullable {V : Type} : Sch V → Sch V
+  | .ref k n => .ref k n
+  | .node h kids => .node h (kids.map (fun (sc : Slot × Sch V) => (sc.1, if sc.1 = Slot.items then dropNullable sc.2 else sc.2)))
+
+/-- the passes of the media-type loop over `n` form media types, in order: each reads the form fields from the form
+    schema as the earlier passes left it (the media types share one schema object) -/
+def formPasses {V : Type} (bin : List String) (objReq : List String) : Nat → List (Slot × Sch V) → List (List (PRef2 V))
+  | 0, _ => []
+  | n + 1, kids => fromV3FormFields false bin objReq kids ::
+      formPasses bin objReq n (kids.map (fun (sc : Slot × Sch V) => (sc.1, dropItemsNullable sc.2)))
+
 /-- fromV3RequestBodies + FromV3RequestBody / FromV3RequestBodyFormData for an operation.
     The content map is ranged over in Go map order; with one media type (or all of one kind) the result
     is order-independent: that is the modelled fragment. -/
@@ -1065,8 +1116,7 @@ def fromV3Body {V : Type} (bin : List String) (shared : Bool) (origName : String
   | .val b =>
     if b.mimes.any isFormMime then
       match b.schema with
-      | some (.node oh kids) => kids.filterMap (fun (sl, s) => match sl with
-          | .prop name => some (fromV3FormPropO bin oh.req name s) | _ => none)
+      | some (.node oh kids) => fromV3FormFields (formTwice b.mimes) bin oh.req kids
       | _ => []
     else if b.mimes.isEmpty then []
     else [.val { name := origName, loc := "body", required := b.required, cons := {}, items := none,
@@ -1500,7 +1550,14 @@ def formOKBack {V : Type} : PRef2 V → Bool
   | .ref _ _ => false
   | .val p => p.loc == "formData" && itemsOKBack p.items && p.items.all noBinary2 && formFmtOK p
 
-def inputOKFBack {V : Type} (cs : List String) (q : PRef2 V) : Bool := inputOKBack cs q || formOKBack q
+/-- F-C17-16 (FormItemsNullableLost): under both form media types the items of an array form parameter come back
+    from a second FromV3SchemaRef pass, after the first has cleared `nullable` in place -/
+def formItemsTwice {V : Type} (cs : List String) : PRef2 V → Bool
+  | .ref _ _ => false
+  | .val p => p.loc == "formData" && formTwice cs && p.items.any hasXnull
+
+def inputOKFBack {V : Type} (cs : List String) (q : PRef2 V) : Bool :=
+  inputOKBack cs q || (formOKBack q && !formItemsTwice cs q)
 
 def opInputsBack {V : Type} (dc : List String) (o : Op2 V) : Bool :=
   o.params.all (inputOKFBack (effConsumes dc o)) && o.responses.all (fun kr => respSimpleBack o.produces kr.2)
